@@ -11,12 +11,15 @@ from sexp import Atom, opt, some
 MODEL = "notify"
 SHRINKABLE = True
 RULE = ("op sequences over 3 senders x 3 names x 4 observers (2 callback methods each), all 8 hold/disable "
-        "scopes, scripted re-entrant callbacks, kill ops; non-trivial = contains a post that produced at least "
-        "one delivery AND at least one of {hold, disable, script, remove, kill}; distinct = distinct op lists")
+        "scopes (properly nested, and overlapping with different widths), scripted re-entrant callbacks, kill ops "
+        "on one observer and one sender (also while notifications from / for them are pending), lookups with "
+        "fnmatch patterns incl. [seq] / [!seq] and with None in every position, through the centre and through "
+        "the BaseObject wrappers; non-trivial = contains a post that produced at least one delivery AND at least "
+        "one of {hold, disable, script, remove, kill}; distinct = distinct op lists")
 ASSUMPTIONS = [
     "callbacks are one-shot scripts of centre operations; exceptions inside a callback are caught by the callback",
-    "senders are never garbage-collected while a hold queue names them (the code asserts on release otherwise)",
-    "glob patterns use literals, * and ? only (no [seq])",
+    "an object that was garbage-collected is never named by a later call (there is no object to pass)",
+    "identifier patterns are drawn from a fixed list and from random strings over a b . x * ? [ ] ! - ^ \\",
     "single thread; 'schedules' = re-entrant callbacks",
 ]
 TRUSTED = ["weakref death modelled as an explicit kill op; the harness keeps every other object alive"]
@@ -25,9 +28,17 @@ SENDERS = [1, 2, 3]
 NAMES = [1, 2, 3]
 OBSERVERS = [10, 11, 12, 13]
 METHS = [1, 2]
-IDENTS = ["a.b", "a.c", "x", "ab"]
+IDENTS = ["a.b", "a.c", "x", "ab", "[", "a]", "-", "!b", "a-b", "^", "b", "a.-"]
 KILLABLE = 13
-PATS = ["a*", "*", "a.?", "x", "?b", "*c", "a.b"]
+KILLABLE_S = 3
+PATS = ["a*", "*", "a.?", "x", "?b", "*c", "a.b",
+        # [seq] / [!seq] as fnmatch.translate reads them
+        "[ab]*", "a.[!b]", "a.[b-c]", "[a-c].?", "[!a-b]*", "[]a]*", "[!]a]*", "[!]", "[]", "[", "x[", "a[",
+        "[z-a]*", "[!z-a]*", "[!z-a]", "a[.]b", "a[.-]*", "[a-]*", "[-a]b", "[!-]b", "[^a]*", "[!^]*", "[[]",
+        "a[!]-]b", "a[--.]b", "a.[a-a-b]", "a[b-a.]?", "[a-bx]", "*[]]", "[a][b]", "a[.][!b]", "[!x]", "[*]b", "a[?]b",
+        # translate looks for the `!` after it has dropped the empty ranges
+        "[b-a!x]*", "[b--!]*", "[b-a!]", "[b--!-a]*", "[b--!-.]b"]
+PAT_ALPHABET = "ab.x*?[]!-^\\"
 
 
 # ---------------------------------------------------------------------------------------
@@ -53,6 +64,22 @@ def _pick(rng, xs):
     return rng.choice(xs)
 
 
+def gen_pat(rng):
+    """an identifier pattern: mostly from the list, otherwise a random string over the characters that matter"""
+    if rng.random() < 0.7:
+        return rng.choice(PATS)
+    if rng.random() < 0.5:
+        # a bracket expression with something around it
+        body = "".join(rng.choice("ab.x]!-^[") for _ in range(rng.randint(0, 4)))
+        return rng.choice(["", "a", "*", "?"]) + "[" + rng.choice(["", "!"]) + body + rng.choice(["]", "]", "]", ""]) + \
+            rng.choice(["", "b", "*", "?", ".b"])
+    return "".join(rng.choice(PAT_ALPHABET) for _ in range(rng.randint(1, 5)))
+
+
+def _opat(rng, p_none=0.5):
+    return None if rng.random() < p_none else gen_pat(rng)
+
+
 def gen_op(rng, alive, depth=0, in_script=False):
     obs = [o for o in OBSERVERS if o in alive]
     if in_script:
@@ -73,7 +100,7 @@ def gen_op(rng, alive, depth=0, in_script=False):
     if r < 0.60:
         return ["has", rng.choice(obs), _o(rng, NAMES), _o(rng, SENDERS)]
     if r < 0.65:
-        return ["find", _o(rng, obs, 0.6), _o(rng, NAMES, 0.6), _o(rng, SENDERS, 0.6), _o(rng, PATS, 0.5)]
+        return ["find", _o(rng, obs, 0.6), _o(rng, NAMES, 0.6), _o(rng, SENDERS, 0.6), _opat(rng)]
     scope = [_o(rng, NAMES, 0.55), _o(rng, SENDERS, 0.55), None if rng.random() < 0.6 else _pick(rng, obs)]
     if r < 0.73:
         return ["hold"] + scope + [_o(rng, [1, 2], 0.7)]
@@ -203,7 +230,7 @@ def gen_registry_case(rng, maxlen):
         elif r < 0.68:
             ops.append(["removeAll", o, rng.choice([None, sd])])
         elif r < 0.9:
-            ops.append(["find", rng.choice([None, o]), rng.choice([None, n]), rng.choice([None, sd]), _o(rng, PATS, 0.5)])
+            ops.append(["find", rng.choice([None, o]), rng.choice([None, n]), rng.choice([None, sd]), _opat(rng)])
         elif r < 0.95:
             ops.append(["has", o, n, sd])
         else:
@@ -250,15 +277,165 @@ def gen_nested_scope_case(rng, maxlen):
     return dict(ops=ops, via_base=rng.random() < 0.3)
 
 
-def generate(rng, tier):
-    n, maxlen = (1500, 25) if tier == "quick" else (20000, 60)
-    for i in range(n):
-        if i % 8 == 5:
-            yield gen_registry_case(rng, maxlen)
-        elif i % 8 == 3:
-            yield gen_nested_scope_case(rng, maxlen)
+def gen_dead_case(rng, maxlen):
+    """objects that die while something is pending: notifications of a sender that is collected before the hold that
+    queued them is released (they are dropped; what was queued behind them still goes out), and an observer that is
+    collected while notifications destined for it alone wait in a queue - its own narrow hold (which can never be
+    released again) or a wider one they were re-posted into"""
+    FOCUS.clear()
+    n0 = rng.choice(NAMES)
+    s0 = rng.choice(SENDERS[:2])
+    FOCUS[id(NAMES)] = n0
+    FOCUS[id(SENDERS)] = s0
+    ops = []
+    obs = rng.sample(OBSERVERS[:3], rng.randint(1, 2)) + [KILLABLE]
+    regs = set()
+    for o in obs + [rng.choice(obs)]:
+        n, sd = rng.choice([(None, None), (n0, None), (None, s0), (n0, s0), (None, KILLABLE_S), (n0, KILLABLE_S)])
+        if (o, n, sd) not in regs:
+            regs.add((o, n, sd))
+            ops.append(["add", o, rng.choice(METHS), n, sd, _o(rng, IDENTS, 0.7)])
+    kill_s = rng.random() < 0.7
+    kill_o = rng.random() < 0.6 or not kill_s
+    wide = [("hold", [rng.choice([None, n0]), None, None])]
+    if rng.random() < 0.3:
+        wide.append(("hold", [rng.choice([None, n0]), rng.choice([s0, KILLABLE_S]), None]))
+    narrow = [("hold", [rng.choice([None, n0]), rng.choice([None, None, s0]), o]) for o in obs if rng.random() < 0.6]
+    scopes = wide + narrow
+    rng.shuffle(scopes)
+
+    def posts(p, senders):
+        while rng.random() < p:
+            ops.append(["post", n0 if rng.random() < 0.9 else rng.choice(NAMES), rng.choice(senders), rng.randrange(2)])
+    live_s = list(SENDERS)
+    for kind, sc in scopes:
+        ops.append([kind] + sc + [None])
+        posts(0.7, live_s)
+    # some of the narrow holds end while the wide ones are still active: their entries move into the wide queues
+    early = [x for x in narrow if rng.random() < 0.6]
+    for kind, sc in early:
+        ops.append(["release"] + sc)
+        scopes.remove((kind, sc))
+    posts(0.5, live_s)
+    dead = set()
+    if kill_s:
+        ops.append(["kill", KILLABLE_S])
+        dead.add(KILLABLE_S)
+        live_s = [x for x in SENDERS if x != KILLABLE_S]
+    posts(0.4, live_s)
+    if kill_o:
+        ops.append(["kill", KILLABLE])
+        dead.add(KILLABLE)
+    posts(0.4, live_s)
+    if rng.random() < 0.3:
+        ops.append(["heldKeys"])
+    rng.shuffle(scopes)
+    for kind, sc in scopes:
+        if sc[1] in dead or sc[2] in dead:
+            continue                      # nobody can name it any more
+        ops.append(["release"] + sc)
+        posts(0.3, live_s)
+    ops.append(["post", n0, s0, rng.randrange(2)])
+    ops.append(["find", None, rng.choice([None, n0]), None, None])
+    return dict(ops=ops, via_base=rng.random() < 0.3)
+
+
+def gen_none_case(rng, maxlen):
+    """None as an argument: a KEY of its own for add / has / remove (the catch-all registration), a WILDCARD for find -
+    the same observer is registered for a name and / or for everything, on a sender and / or on every sender, and the
+    lookups are made with None in every position, mostly through the BaseObject wrappers"""
+    FOCUS.clear()
+    n0, s0 = rng.choice(NAMES), rng.choice(SENDERS)
+    obs = rng.sample(OBSERVERS[:3], 2)
+    keys = [(None, s0), (n0, s0), (None, None), (n0, None), (rng.choice(NAMES), s0)]
+    ops = []
+    for _ in range(rng.randint(6, max(8, maxlen))):
+        o = rng.choice(obs)
+        n, sd = rng.choice(keys[:2]) if rng.random() < 0.6 else rng.choice(keys)
+        r = rng.random()
+        if r < 0.3:
+            ops.append(["add", o, rng.choice(METHS), n, sd, _o(rng, IDENTS, 0.4)])
+        elif r < 0.42:
+            ops.append(["remove", o, n, sd])
+        elif r < 0.47:
+            ops.append(["removeAll", o, sd])
+        elif r < 0.67:
+            ops.append(["has", o, n, sd])
+        elif r < 0.92:
+            ops.append(["find", rng.choice([None, o]), rng.choice([None, n]), rng.choice([None, sd]), _opat(rng, 0.6)])
         else:
-            yield gen_bracket_case(rng, maxlen) if i % 2 else gen_case(rng, maxlen)
+            ops.append(["post", n0, s0, 1])
+    for o in obs:
+        ops.append(["has", o, None, s0])
+        ops.append(["has", o, n0, s0])
+    ops.append(["find", None, None, s0, None])
+    return dict(ops=ops, via_base=rng.random() < 0.7)
+
+
+def gen_glob_case(rng, maxlen):
+    """identifier lookups: a handful of registrations with identifiers, then patterns"""
+    FOCUS.clear()
+    ops = []
+    seen = set()
+    for _ in range(rng.randint(3, 7)):
+        o, n, sd = rng.choice(OBSERVERS[:3]), _o(rng, NAMES[:2]), _o(rng, SENDERS[:2])
+        if (o, n, sd) in seen:
+            continue
+        seen.add((o, n, sd))
+        ident = rng.choice(IDENTS) if rng.random() < 0.85 else None
+        if rng.random() < 0.2:
+            ident = "".join(rng.choice("ab.x[]!-^") for _ in range(rng.randint(0, 3)))
+        ops.append(["add", o, rng.choice(METHS), n, sd, ident])
+    for _ in range(rng.randint(4, max(6, maxlen // 2))):
+        ops.append(["find", _o(rng, OBSERVERS[:3], 0.8), _o(rng, NAMES[:2], 0.8), _o(rng, SENDERS[:2], 0.8), gen_pat(rng)])
+    return dict(ops=ops, via_base=rng.random() < 0.3)
+
+
+def gen_midpost_case(rng, maxlen):
+    """nothing is suspended when a post starts; the callback of one of its receivers suspends (holds or disables) a
+    scope that concerns a receiver whose turn has not come yet - the suspension must be seen for that receiver, in this
+    very post"""
+    FOCUS.clear()
+    n0, s0 = rng.choice(NAMES), rng.choice(SENDERS)
+    obs = rng.sample(OBSERVERS[:3], rng.randint(2, 3))
+    ops = []
+    for o in obs:
+        n, sd = rng.choice([(None, None), (None, s0), (n0, None), (n0, s0)])
+        ops.append(["add", o, rng.choice(METHS), n, sd, None])
+    actor = rng.choice([x for x in ops if x[0] == "add"])
+    victim = rng.choice(obs)
+    kind = rng.choice(["hold", "disable"])
+    sc = [rng.choice([None, n0]), rng.choice([None, s0]), rng.choice([victim, victim, None])]
+    body = [[kind] + sc + ([None] if kind == "hold" else [])]
+    if rng.random() < 0.3:
+        body.append(["post", n0, s0, 2])
+    ops.append(["script", actor[1], actor[2], body])
+    ops.append(["post", n0, s0, 1])
+    if rng.random() < 0.5:
+        ops.append(["post", n0, s0, rng.randrange(2)])
+    ops.append(["release" if kind == "hold" else "enable"] + sc)
+    ops.append(["post", n0, s0, 0])
+    return dict(ops=ops, via_base=rng.random() < 0.3)
+
+
+def generate(rng, tier):
+    n, maxlen = (2400, 25) if tier == "quick" else (32000, 60)
+    for i in range(n):
+        k = i % 16
+        if k in (5, 13):
+            yield gen_registry_case(rng, maxlen)
+        elif k in (3, 11):
+            yield gen_nested_scope_case(rng, maxlen)
+        elif k == 7:
+            yield gen_dead_case(rng, maxlen)
+        elif k == 15:
+            yield gen_glob_case(rng, maxlen) if i % 32 == 15 else gen_none_case(rng, maxlen)
+        elif k in (1, 9, 14):
+            yield gen_bracket_case(rng, maxlen)
+        elif k == 6 and i % 32 == 6:
+            yield gen_midpost_case(rng, maxlen)
+        else:
+            yield gen_case(rng, maxlen)
 
 
 def neighbourhood(case, step, rng):
@@ -372,6 +549,10 @@ class World(object):
         self.scripts = {}
         self.events = []
         self.deliveries = 0
+        self.cov = {}
+
+    def _cov(self, what):
+        self.cov[what] = self.cov.get(what, 0) + 1
 
     def oid(self, obj):
         if obj is None:
@@ -420,6 +601,8 @@ class World(object):
         if k == "add":
             o, m, n, s, ident = op[1:]
             if self.via_base and s is not None:
+                if n is None:
+                    self._cov("wrapper.addObserver(notification=None)")
                 self.objs[s].addObserver(self.objs[o], "cb%d" % m, _nname(n), identifier=ident)
             else:
                 c.addObserver(self.objs[o], "cb%d" % m, _nname(n), None if s is None else self.objs[s], identifier=ident)
@@ -427,6 +610,8 @@ class World(object):
         if k == "remove":
             o, n, s = op[1:]
             if self.via_base and s is not None:
+                if n is None:
+                    self._cov("wrapper.removeObserver(notification=None)")
                 self.objs[s].removeObserver(self.objs[o], _nname(n))
             else:
                 c.removeObserver(self.objs[o], _nname(n), None if s is None else self.objs[s])
@@ -441,11 +626,15 @@ class World(object):
         if k == "has":
             o, n, s = op[1:]
             if self.via_base and s is not None:
+                if n is None:
+                    self._cov("wrapper.hasObserver(notification=None)")
                 return bool(self.objs[s].hasObserver(self.objs[o], _nname(n)))
             return bool(c.hasObserver(self.objs[o], _nname(n), None if s is None else self.objs[s]))
         if k == "find":
             o, n, s, pat = op[1:]
             if self.via_base and s is not None:
+                self._cov("wrapper.findObservations(observer=%s, notification=%s, identifier=%s)" % (
+                    "None" if o is None else "o", "None" if n is None else "n", "None" if pat is None else "pat"))
                 found = self.objs[s].findObservations(observer=None if o is None else self.objs[o],
                                                       notification=_nname(n), identifier=pat)
             else:
@@ -501,12 +690,13 @@ class World(object):
             items = []
             for (n, sref, oref) in c.getHeldNotifications():
                 items.append([opt(None if n is None else int(n[1:])),
-                              opt(None if sref is None else self.oid(sref())),
+                              opt(None if sref is None else self._dead_or_id(sref)),
                               opt(None if oref is None else self._dead_or_id(oref))])
             return [Atom("keys"), [Atom("set")] + items]
         if k == "heldNotes":
             return [Atom("notes"), list(c.getHeldNotificationNotes(**self._scope(op)))]
         if k == "kill":
+            self._cov("kill.sender" if op[1] in SENDERS else "kill.observer")
             self.killed.add(op[1])
             self.refs[op[1]] = weakref.ref(self.objs[op[1]])
             del self.objs[op[1]]
@@ -539,8 +729,9 @@ def run_impl(case):
         w.events = []
         w.do(op)
         outs.append(list(w.events))
-    viol = oracle(case, outs)
-    kinds = {}
+    viol, cov = oracle(case, outs)
+    kinds = dict(cov)
+    kinds.update(w.cov)
     for op in case["ops"]:
         kinds["op." + op[0]] = kinds.get("op." + op[0], 0) + 1
     errs = 0
@@ -572,6 +763,7 @@ class Spec(object):
         self.dead = set()
         self.scripts = {}
         self.ev = []
+        self.cov = {}        # what the history exercised (evidence only)
 
     def matching(self, n, s):
         res = []
@@ -587,6 +779,8 @@ class Spec(object):
             if k in self.holds:
                 q = self.holds[k][1]
                 if (n, s, d, target) not in q:
+                    if target is not None and any(e[:3] == (n, s, d) and e[3] is not None for e in q):
+                        self.cov["queue.equal_entries_for_two_observers"] = self.cov.get("queue.equal_entries_for_two_observers", 0) + 1
                     q.append((n, s, d, target))
                 return
         for key in ((None, None), (None, s), (n, None), (n, s)):
@@ -602,6 +796,8 @@ class Spec(object):
                     if k in self.holds:
                         q = self.holds[k][1]
                         if (n, s, d, o) not in q:
+                            if any(e[:3] == (n, s, d) and e[3] is not None for e in q):
+                                self.cov["queue.equal_entries_for_two_observers"] = self.cov.get("queue.equal_entries_for_two_observers", 0) + 1
                             q.append((n, s, d, o))
                         held = True
                         break
@@ -644,6 +840,14 @@ class Spec(object):
                 if self.holds[key][0] == 0:
                     q = self.holds.pop(key)[1]
                     for (n, s, d, t) in q:
+                        if s in self.dead:
+                            # nobody is left to speak of; the rest of the queue must not suffer
+                            self.cov["release.entry_of_dead_sender"] = self.cov.get("release.entry_of_dead_sender", 0) + 1
+                            continue
+                        if t is not None and t in self.dead:
+                            self.cov["release.entry_for_dead_observer"] = self.cov.get("release.entry_for_dead_observer", 0) + 1
+                        if t is not None and any(k2 in self.holds for k2 in ((None, None, None), (n, None, None), (None, s, None), (n, s, None))):
+                            self.cov["release.restricted_entry_into_wider_hold"] = self.cov.get("release.restricted_entry_into_wider_hold", 0) + 1
                         self.post(n, s, d, t)
         elif k == "disable":
             key = tuple(op[1:4])
@@ -685,7 +889,7 @@ class Spec(object):
                 continue
             if pat is not None and (r[4] is None or not fnmatchcase(r[4], pat)):
                 continue
-            res.append((None if r[2] in self.dead else r[2], r[1], r[0], r[4]))
+            res.append((None if r[2] in self.dead else r[2], None if r[1] in self.dead else r[1], r[0], r[4]))
         return sorted(res, key=repr)
 
 
@@ -744,4 +948,4 @@ def oracle(case, outs):
                              signature="C04/%s/%s%s" % (clause, op[0], "/scoped" if scoped else ""),
                              step=i, op=op, expected=repr(e2)[:600], observed=repr(g2)[:600]))
             break
-    return viol
+    return viol, spec.cov
